@@ -192,3 +192,29 @@ pub fn stub_join_strings(values: &Vec<Rcvar>, glue: &String) -> (r: Result<Strin
 pub uninterp spec fn fmt_expr_type(t: JmespathType) -> Seq<char>;
 #[verifier::external_body]
 pub fn idiom_format_expr_type(t: &JmespathType) -> (r: String) ensures r@ == fmt_expr_type(*t) { format!("expression->{}", t) }
+#[verifier::external_body]
+pub fn idiom_type_ref_to_string(t: &JmespathType) -> (s: String) ensures s@ == display_type(*t) { t.to_string() }
+/// keys of a by-function: key i is a result of evaluating the expression reference against element i, and all
+/// keys have the type of the first one, which is string or number
+pub open spec fn by_keys(rt: &Runtime, ast: Ast, input: Seq<Rcvar>, keys: Seq<Rcvar>) -> bool {
+    keys.len() == input.len()
+    && (forall|i: int| 0 <= i < input.len() ==> evals(rt, ast, *input[i], *#[trigger] keys[i]))
+    && (forall|i: int| 0 <= i < input.len() ==> type_of(*#[trigger] keys[i]) == type_of(*keys[0]))
+    && (input.len() > 0 ==> (*keys[0] is String || *keys[0] is Number))
+}
+// T2: PartialOrd for Rc<T>/Arc<T> delegates to T; `Variable`'s order is var_cmp (unit `eq`)
+#[verifier::external_body]
+pub fn idiom_rc_gt(a: &Rcvar, b: &Rcvar) -> (r: bool) ensures r == (var_cmp(**a, **b) == Ordering::Greater) { a.gt(b) }
+#[verifier::external_body]
+pub fn idiom_rc_lt(a: &Rcvar, b: &Rcvar) -> (r: bool) ensures r == (var_cmp(**a, **b) == Ordering::Less) { a.lt(b) }
+// T2 order axioms for keys of one type (string: String::cmp is a total order; number: f64::partial_cmp is a total
+// order on the finite doubles a Number can hold - Kani harness f64_order_total)
+#[verifier::external_body]
+pub proof fn axiom_var_cmp_order(a: Variable, b: Variable, c: Variable)
+    requires (a is String && b is String && c is String) || (a is Number && b is Number && c is Number),
+    ensures
+        (var_cmp(a, b) == Ordering::Greater) == (var_cmp(b, a) == Ordering::Less),
+        var_cmp(a, b) != Ordering::Greater && var_cmp(b, c) != Ordering::Greater ==> var_cmp(a, c) != Ordering::Greater,
+        var_cmp(a, b) != Ordering::Less && var_cmp(b, c) != Ordering::Less ==> var_cmp(a, c) != Ordering::Less,
+        var_cmp(a, a) == Ordering::Equal,
+{ }
